@@ -9,6 +9,8 @@ use serde::{Deserialize, Serialize};
 pub enum PosCase {
     Tape(Vec<u16>),
     Fen(String),
+    /// two positions handled one after the other (replay form of the key-collision parts)
+    Pair(String, String),
 }
 
 pub fn pos_case(len: std::ops::Range<usize>) -> impl Strategy<Value = PosCase> + Sync {
@@ -27,6 +29,7 @@ impl PosCase {
                 }
                 v
             }
+            PosCase::Pair(a, b) => [a, b].iter().filter_map(|f| Pos::from_fen(f).ok()).filter(|p| p.validate().is_ok()).map(|p| GenPos { pos: p, src: "replay" }).collect(),
             PosCase::Fen(f) => match Pos::from_fen(f) {
                 Ok(p) => match p.validate() {
                     Ok(()) => vec![GenPos { pos: p, src: "replay" }],
